@@ -122,6 +122,9 @@ type Txn struct {
 	ID   string
 	Refs []RefOp
 	Logs []LogOp
+	// Span widens the table's declared update-index range to [ui, ui+Span]
+	// (a batch planned over several indices); the records stay at ui.
+	Span uint64
 }
 
 func (t Txn) Empty() bool { return len(t.Refs) == 0 && len(t.Logs) == 0 }
@@ -177,7 +180,7 @@ func (t Txn) Records(ui uint64, hashSize int, exactMsg bool) ([]refdb.Ref, []ref
 // Write emits the transaction through the real writer at update index ui.
 func (t Txn) Write(w *reftable.Writer, ui uint64, hashSize int) error {
 	refs, logs := t.Records(ui, hashSize, true)
-	w.SetLimits(ui, ui)
+	w.SetLimits(ui, ui+t.Span)
 	for _, r := range refs {
 		rec := reftable.RefRecord{RefName: r.Name, UpdateIndex: r.UpdateIndex, Value: r.Value, TargetValue: r.Peeled, Target: r.Symref}
 		if err := w.AddRef(&rec); err != nil {
